@@ -9,6 +9,9 @@ import (
 	"fmt"
 	"strings"
 	"testing"
+	"time"
+
+	"github.com/btcsuite/btcd/wire"
 
 	bitcointypes "github.com/goatnetwork/goat/x/bitcoin/types"
 	"pgregory.net/rapid"
@@ -364,5 +367,105 @@ func TestC17_Withdraw(t *testing.T) {
 		ID: "C17", Name: "withdraw", Quick: 60_000, Thor: 2_000_000,
 		Gen: genWithdrawAddr, Run: runWithdrawAddr,
 		Rule: "address strings built by independent Base58Check/Bech32/Bech32m encoders for every standard type (P2PKH, P2SH, P2WPKH, P2WSH, P2TR) x configured network x encoding network, plus pay-to-pubkey hex (compressed, uncompressed, hybrid), non-standard witness programs (unspecified) and mutations (upper case, checksum, mixed case, wrong checksum constant, bad length, foreign character); oracle: standard same-prefix address -> exactly the template script, P2PK / other-prefix / mutated -> rejected; every case non-trivial; distinct by case",
+	})
+}
+
+// ---- app slice: the address the node hands out is accepted as a deposit for exactly that pair ----
+
+type AddrAppCase struct {
+	Schnorr bool   `json:"schnorr"`
+	Version int    `json:"version"`
+	EvmSeed int    `json:"evm_seed"`
+	Value   uint64 `json:"value"`
+	Pos     int    `json:"pos"`
+}
+
+func runAddrApp(c AddrAppCase) Outcome {
+	o := Outcome{NonTrivial: true, Classes: []string{fmt.Sprintf("v%d/schnorr=%v", c.Version%2, c.Schnorr)}}
+	f, err := newVoteFixture(2, 0, 0, c.Schnorr)
+	if err != nil {
+		o.Fail = failf("fixture", "fixture-failed", "%v", err)
+		return o
+	}
+	defer f.close()
+	sim := f.sim
+	evm := evmOf(c.EvmSeed)
+	var resp bitcointypes.QueryDepositAddressResponse
+	qerr := sim.Node.Query("/goat.bitcoin.v1.Query/DepositAddress", &bitcointypes.QueryDepositAddress{Version: uint32(c.Version % 2), EvmAddress: fmt.Sprintf("0x%x", evm)}, &resp)
+	if c.Version%2 == 1 && c.Schnorr {
+		if qerr == nil {
+			o.Fail = failf("handout", "v1-schnorr-address-built", "the node handed out a version-1 address for a Schnorr key")
+		}
+		return o
+	}
+	if qerr != nil {
+		o.Fail = failf("handout", "address-query-failed", "%v", qerr)
+		return o
+	}
+	script, err := scriptOfAddress(resp.Address, "bcrt")
+	if err != nil {
+		o.Fail = failf("handout", "address-undecodable", "%q: %v", resp.Address, err)
+		return o
+	}
+	outs := []*wire.TxOut{wire.NewTxOut(int64(50_000+c.Value%1_000_000), script)}
+	if c.Version%2 == 1 {
+		outs = append(outs, wire.NewTxOut(0, resp.OpReturnScript))
+	}
+	tx := world.SpendTx(uint64(c.EvmSeed), outs...)
+	height := uint64(101)
+	txs := []*wire.MsgTx{world.CoinbaseTx(height), world.FillerTx(height, 1), world.FillerTx(height, 2), world.FillerTx(height, 3)}
+	pos := 1 + abs(c.Pos)%3
+	txs[pos] = tx
+	blk := world.NewBtcBlock(height, world.DSha([]byte("prev")), txs)
+	rv, _ := sim.Node.RelayerView()
+	hm, err := f.honestMsg(voteBody{kind: kindHashes, start: height, hashes: [][]byte{blk.Hash}}, rv)
+	if err != nil {
+		o.Fail = failf("fixture", "vote-build-failed", "%v", err)
+		return o
+	}
+	prop := f.memberAcc(rv.Proposer)
+	dep := func(evmAddr []byte) *bitcointypes.MsgNewDeposits {
+		return &bitcointypes.MsgNewDeposits{Proposer: rv.Proposer, BlockHeaders: []*bitcointypes.BlockHeader{{Height: height, Raw: blk.Header}},
+			Deposits: []*bitcointypes.Deposit{{Version: uint32(c.Version % 2), BlockNumber: height, TxIndex: uint32(pos), NoWitnessTx: blk.Raw[pos], OutputIndex: 0,
+				IntermediateProof: blk.Tree.Path(pos), EvmAddress: evmAddr, RelayerPubkey: f.btcKey.Public()}}}
+	}
+	other := append([]byte{}, evm...)
+	other[7] ^= 0x20
+	t1, _ := sim.Node.Tx(prop, 0, world.TxOpts{}, hm)
+	t2, _ := sim.Node.Tx(prop, 1, world.TxOpts{}, dep(other)) // another EVM address: must fail
+	r, err := sim.Step(world.StepOpts{DT: 5 * time.Second, Proposer: -1, Txs: [][]byte{t1, t2}})
+	if err != nil {
+		o.Fail = failf("block-processing", "block-failed", "%v", err)
+		return o
+	}
+	if r.Resp.TxResults[1].Code != 0 {
+		o.Fail = failf("fixture", "hash-vote-failed", "%s", r.Resp.TxResults[1].Log)
+		return o
+	}
+	if r.Resp.TxResults[2].Code == 0 {
+		o.Fail = failf("exclusive", "deposit-accepted-for-another-evm-address", "a deposit to the address handed out for %x was credited to %x", evm, other)
+		return o
+	}
+	t3, _ := sim.Node.Tx(prop, 0, world.TxOpts{}, dep(evm))
+	r, err = sim.Step(world.StepOpts{DT: 5 * time.Second, Proposer: -1, Txs: [][]byte{t3}})
+	if err != nil {
+		o.Fail = failf("block-processing", "block-failed", "%v", err)
+		return o
+	}
+	if r.Resp.TxResults[1].Code != 0 {
+		o.Fail = failf("roundtrip", "deposit-to-handed-out-address-rejected", "a deposit paying the address the node handed out (%s) was rejected: %s", resp.Address, r.Resp.TxResults[1].Log)
+	}
+	return o
+}
+
+func TestC17_App(t *testing.T) {
+	RunProp(t, Prop[AddrAppCase]{
+		ID: "C17", Name: "app", Quick: 96, Thor: 3000,
+		Gen: func(t *rapid.T) AddrAppCase {
+			return AddrAppCase{Schnorr: rapid.Bool().Draw(t, "schnorr"), Version: rapid.IntRange(0, 1).Draw(t, "version"), EvmSeed: rapid.IntRange(0, 1<<20).Draw(t, "evm"),
+				Value: rapid.Uint64Range(0, 1<<30).Draw(t, "value"), Pos: rapid.IntRange(0, 2).Draw(t, "pos")}
+		},
+		Run:  runAddrApp,
+		Rule: "app slice: Query/DepositAddress on a live chain (ECDSA or Schnorr bridge key, version 0/1, random EVM address) -> independent decoder -> a model Bitcoin transaction paying that script in a block whose hash is voted at run time -> MsgNewDeposits must be credited for exactly that EVM address and rejected for a one-bit-different one; version 1 with a Schnorr key must not be handed out",
 	})
 }
